@@ -174,6 +174,10 @@ def run_plain(case):
   n, b, drop = case['n'], case['batch_size'], case['drop_remainder']
   if case['call'] == 'kwargs':
     view = ds.batch(batch_size=b, drop_remainder=drop)
+  elif case['call'] == 'override':
+    # documented form: hparams object overridden by keyword arguments
+    view = ds.batch(fedjax.BatchHParams(batch_size=b + 3, drop_remainder=not drop),
+                    batch_size=b, drop_remainder=drop)
   else:
     view = ds.batch(fedjax.BatchHParams(batch_size=b, drop_remainder=drop))
   batches = list(view)
@@ -201,6 +205,9 @@ def run_padded(case):
   n, b, k = case['n'], case['batch_size'], case['buckets']
   if case['call'] == 'kwargs':
     view = ds.padded_batch(batch_size=b, num_batch_size_buckets=k)
+  elif case['call'] == 'override':
+    view = ds.padded_batch(fedjax.PaddedBatchHParams(batch_size=b + 1, num_batch_size_buckets=k + 2),
+                           batch_size=b, num_batch_size_buckets=k)
   else:
     view = ds.padded_batch(fedjax.PaddedBatchHParams(batch_size=b, num_batch_size_buckets=k))
   batches = list(view)
@@ -253,7 +260,7 @@ def case_strategy(draw, tier, padded):
       min_size=0, max_size=2))
   preps = draw(st.lists(st.sampled_from(PREPS), min_size=0, max_size=3))
   case = {'n': n, 'batch_size': b, 'features': feats, 'preps': preps,
-          'call': draw(st.sampled_from(['kwargs', 'hparams']))}
+          'call': draw(st.sampled_from(['kwargs', 'hparams', 'override']))}
   if padded:
     case['buckets'] = draw(st.integers(1, 8))
   else:
